@@ -215,6 +215,14 @@ func (ks *KeyStorage) UnmarshalBinary(data []byte) error {
 }
 
 func (ks *KeyStorage) verifyKeySlots(masterKey []byte) error {
+	// a slot without an encrypted key contributes nothing to the HMAC: the API never creates one,
+	// so it could only have been planted into the stored form
+	for slotID, slot := range ks.underlying.GetKeySlots() {
+		if len(slot.GetEncryptedKey()) == 0 {
+			return xerrors.NewTaggedf[HMACMismatchTag]("key slot '%s' has no encrypted key, please verify key storage integrity", slotID)
+		}
+	}
+
 	if subtle.ConstantTimeCompare(ks.hashSlots(masterKey), ks.underlying.GetKeysHmacHash()) == 0 {
 		return xerrors.NewTaggedf[HMACMismatchTag]("key storage HMAC mismatch, please verify key storage integrity")
 	}
